@@ -24,7 +24,7 @@ C01_OPS = ["add", "sub", "mul", "neg", "abs", "min", "max", "incr", "decr", "inc
 C07_OPS = ["bitwise_and", "bitwise_or", "bitwise_xor", "bitwise_andnot", "bitwise_not", "bitwise_lshift_s", "bitwise_rshift_s",
            "bitwise_lshift_b", "bitwise_rshift_b", "rotl_s", "rotr_s", "rotl_b", "rotr_b"]
 C03_OPS = ["eq", "neq", "lt", "le", "gt", "ge", "select", "bool_and", "bool_or", "bool_xor", "bool_not", "bool_lnot", "bool_eq", "bool_neq",
-           "bool_andnot", "bool_land", "bool_lor", "bool_any", "bool_all", "bool_none", "bool_count", "bool_mask", "bool_from_mask"] + [o for o in entries.OPS if o.startswith("bool_cast_to_")]
+           "bool_andnot", "bool_land", "bool_lor", "bool_any", "bool_all", "bool_none", "bool_count", "bool_mask", "bool_from_mask", "bool_get"] + [o for o in entries.OPS if o.startswith("bool_cast_to_")]
 
 C02_OPS = ["add", "sub", "mul", "div", "sqrt", "neg", "abs", "copysign", "bitofsign", "nextafter", "bitwise_and", "bitwise_or", "bitwise_xor",
            "bitwise_andnot", "bitwise_not", "fma", "fms", "fnma", "fnms", "min", "max", "isnan", "isinf", "isfinite", "is_flint",
@@ -32,7 +32,7 @@ C02_OPS = ["add", "sub", "mul", "div", "sqrt", "neg", "abs", "copysign", "bitofs
 C08_OPS = ["ceil", "floor", "trunc", "round", "nearbyint", "rint", "nearbyint_as_int"]
 
 C04_OPS = ["load_aligned", "load_unaligned", "store_aligned", "store_unaligned", "broadcast", "bool_load_aligned", "bool_load_unaligned",
-           "bool_store_aligned", "bool_store_unaligned", "gather", "gather_s", "scatter"]
+           "bool_store_aligned", "bool_store_unaligned", "gather", "gather_s", "scatter", "get"]
 
 C06_OPS = [o for o in entries.OPS if o.startswith("batch_cast_to_") or o.startswith("bitwise_cast_to_")] + ["to_int", "to_float"] + \
           [o for o in entries.OPS if o.startswith("load_as_from_") or o.startswith("store_as_to_")]
